@@ -213,7 +213,7 @@ def c10_extra(cases, verdicts):
 
 
 PROP = dict(
-    proof_modules=["VrpProofs.C10"], model_modules=["VrpModel.C10", "VrpModel.Generated.C10Rules"], drv="drv_c10", bin="c10",
+    proof_modules=["VrpProofs.C10", "VrpProofs.C10.Rules", "VrpProofs.C10.Algo", "VrpProofs.C10.Windows", "VrpProofs.C10.Lists"], model_modules=["VrpModel.C10", "VrpModel.Generated.C10Rules"], drv="drv_c10", bin="c10",
     nontrivial=c10_nontrivial, compare=c10_compare, extra_evidence=c10_extra, translators=[translate_c10_rules],
     correspondence_name="C10 Validate.run vs ValidationContext::validate (set of E1xxx codes) on rendered documents",
     rule="a document is non-trivial if the real reader reports at least one E1xxx code, or accepts it and the document has at "
